@@ -58,6 +58,9 @@ type Run struct {
 	CheckerCmd  string
 	curConfig   string
 	Verbose     bool
+	// Soften (optional): for a function and rule, a reason why a violation there is
+	// not decided ("" = decided)
+	Soften func(fn, rule string) string
 }
 
 func NewRun(property, tier string, seed int64, verifDir string) *Run {
@@ -84,6 +87,16 @@ func (r *Run) Floor(rule string, n int) {
 }
 
 func (r *Run) Add(o Obligation) {
+	// a violation reported on a function whose code uses constructs the evaluators do
+	// not model is recorded as "not decided" (with the construct named): the rule
+	// could not follow the code, which is not evidence that the code is wrong
+	if o.Status == Violation && r.Soften != nil {
+		if why := r.Soften(o.Func, o.Rule); why != "" {
+			o.Status = Info
+			o.What = "not decided for this shape: " + o.What + " — " + why + " [the rule reported: " + o.Detail + "]"
+			o.Detail = ""
+		}
+	}
 	o.Config = r.curConfig
 	if o.Key == "" {
 		o.Key = o.Rule + "@" + o.Func
